@@ -288,3 +288,9 @@ void vf_harness(void) { Array* a; const Array* b; Array_append(a, b); VF_CANARY(
     functions=['Array::append(const Array&)', 'Array::resize', 'Array::reserve'],
 )
 UNITS += [append_arr]
+
+# replay: where the trace recipe of a unit does not reproduce (or there is none) the driver's battery runs on the real library: Array<String> (heap payloads) and a counting
+# element type, every n <= 9: insert(k, x / a[src]), a << a[src], append(a), remove(i, c), resize, copy / assign / self-assign / clone, against std::vector
+_bat = replay.battery('C01/driver.cpp', ['battery'])
+for _u in UNITS:
+    _u.replay = replay.first_of(_u.replay, _bat) if _u.replay else _bat
